@@ -147,25 +147,61 @@ def rule_size(ck, rf, hm, consts):
         _scenario(ck, R, rf, consts, "data frame whose (extended) length exceeds max_message_size", hs, assume={BUF_NONE: True}, stipulate=big, need_no_payload_read=True, tag="too big, extended length")
         hs = [(fin, code) for fin in (0, 0x80) for code in (126, 127)]
         _scenario(ck, R, rf, consts, "continuation frame that takes the message over max_message_size", hs, assume={BUF_NONE: False}, stipulate=big, need_no_payload_read=True, tag="too big, continuation")
-        # boundary, concrete: 1000 bytes buffered + 100 in this frame against limit 1099 / 1100
-        buffered = {X.BUF: bytes(1000)}
-        for limit, want_abort in ((1099, True), (1100, False)):
-            cs = dict(consts)
-            cs.update(buffered)
-            cs[lim] = limit
-            for h in (0x00, 0x80):
-                seen = X.run_frame(rf, cs, h=h, m=100)
-                exits = [u for _e, u in X.frame_states(seen, rf.cfg.exit)]
-                if want_abort:
-                    ok = bool(exits) and all(_clean_abort(u) and not u.preads for u in exits)
-                else:
-                    ok = bool(exits) and all((not u.aborted) and u.preads == 1 for u in exits)
-                ck.ob(R, rf, node.ast, ok, "1000 bytes buffered + 100-byte continuation (0x%02X) against max_message_size=%d: %s" % (h, limit, "aborted before the payload is read" if want_abort else "accepted (the limit itself is allowed)"),
-                      construct="accumulated boundary h=0x%02X limit=%d ok=%s" % (h, limit, ok))
+        # the limit is applied to the *decoded* extended length, not to the 7-bit length code
+        for code in (126, 127):
+            seen = X.run_frame(rf, dict(consts, **{X.BUF: None}), h=0x82, m=code)
+            views = set()
+            for env, u in X.frame_states(seen, node):
+                for nm in q.names_in(node.ast):
+                    if nm == "self":
+                        continue
+                    views.add(env[nm] if nm in env else (X._tag_get(u.tags, nm) or "?"))
+            ok = bool(views) and all(isinstance(v, tuple) and v and v[0] == "extlen" for v in views)
+            ck.ob(R, rf, node.ast, ok, "length code %d: the quantity compared with max_message_size is the decoded extended length (got %s)" % (code, sorted(map(repr, views))), construct="limit operand for code %d: %s" % (code, sorted(map(repr, views))))
+        # units: what does len(<reassembly buffer>) count?  Resolved through every assignment / mutation of the field.
+        kind, ev = X.field_kind(ck.repo, W, P13, X.BUF)
+        if kind in ("unknown", "mixed"):
+            raise AnalysisError("_fragmented_message_buffer: representation cannot be resolved (%s; %s)" % (kind, "; ".join(ev[:4])))
+        # every len(...) that feeds the compared quantity must be a byte count
+        cmp_names = {n_ for n_ in q.names_in(node.ast)}
+        feeders = []
+        for x in q.walk_body(rf.node):
+            if isinstance(x, (ast.Assign, ast.AugAssign)):
+                tg = x.targets if isinstance(x, ast.Assign) else [x.target]
+                if any(isinstance(t, ast.Name) and t.id in cmp_names for t in tg):
+                    feeders.extend(c for c in ast.walk(x.value) if q.is_call(c, "len") and c.args)
+        feeders.extend(c for c in ast.walk(node.ast) if q.is_call(c, "len") and c.args)
+        for c in feeders:
+            arg = q.dotted(c.args[0])
+            if arg == X.BUF:
+                ck.ob(R, rf, c, kind == "bytes", "len(%s) is added to the message size: the field must hold bytes (len = byte count), it is represented as %s (%s)" % (X.BUF, kind, "; ".join(ev[:3])),
+                      construct="units: len(%s) with representation %s" % (X.BUF, kind))
+            elif isinstance(c.args[0], (ast.List, ast.Tuple, ast.Set, ast.ListComp, ast.Dict)):
+                ck.ob(R, rf, c, False, "len(%s) is added to the message size but counts elements, not bytes" % q.unparse(c.args[0])[:60], construct="units: len of a container literal")
+            # other operands are decided by the concrete boundary evaluation below
+        # boundary, concrete: 1000 bytes buffered (in the field's own representation) + 100 in this frame
+        for nchunks in ((2, 7) if kind == "chunks" else (1,)):
+            buffered = {X.BUF: X.buffer_model(kind, 1000, nchunks)}
+            for limit, want_abort in ((1099, True), (1100, False)):
+                cs = dict(consts)
+                cs.update(buffered)
+                cs[lim] = limit
+                for h in (0x00, 0x80):
+                    seen = X.run_frame(rf, cs, h=h, m=100)
+                    exits = [u for _e, u in X.frame_states(seen, rf.cfg.exit)]
+                    if exits and len({u.aborted for u in exits}) > 1:
+                        raise AnalysisError("_receive_frame: the accumulated message size does not evaluate for a concrete buffer (size expression not modelled)")
+                    if want_abort:
+                        ok = bool(exits) and all(_clean_abort(u) and not u.preads for u in exits)
+                    else:
+                        ok = bool(exits) and all((not u.aborted) and u.preads == 1 for u in exits)
+                    ck.ob(R, rf, node.ast, ok, "1000 bytes buffered (%s, %d piece(s)) + 100-byte continuation (0x%02X) against max_message_size=%d: %s" % (kind, nchunks, h, limit, "aborted before the payload is read" if want_abort else "accepted (the limit itself is allowed)"),
+                          construct="accumulated boundary h=0x%02X limit=%d pieces=%d ok=%s" % (h, limit, nchunks, ok))
         for limit, want_abort in ((99, True), (100, False)):
             cs = dict(consts)
             cs[lim] = limit
-            seen = X.run_frame(rf, cs, h=0x82, m=100, assume={BUF_NONE: True})
+            cs[X.BUF] = None
+            seen = X.run_frame(rf, cs, h=0x82, m=100)
             exits = [u for _e, u in X.frame_states(seen, rf.cfg.exit)]
             ok = bool(exits) and (all(_clean_abort(u) and not u.preads for u in exits) if want_abort else all((not u.aborted) and u.preads == 1 for u in exits))
             ck.ob(R, rf, node.ast, ok, "100-byte unfragmented frame against max_message_size=%d: %s" % (limit, "aborted before the payload is read" if want_abort else "accepted"), construct="single boundary limit=%d ok=%s" % (limit, ok))
@@ -503,8 +539,48 @@ def _drop_handler(name):
     return edit
 
 
+def _limit_before_decode(root):
+    body = root.body
+    idx = [i for i, st in enumerate(body) if (isinstance(st, ast.Assign) and _src(st) == "new_len = payloadlen") or (isinstance(st, ast.If) and ("new_len +=" in _src(st) or "max_message_size" in _src(st.test)))]
+    dec = [i for i, st in enumerate(body) if isinstance(st, ast.If) and _src(st.test) == "payloadlen < 126"]
+    if len(idx) != 3 or not dec or dec[0] > idx[0]:
+        return False
+    moved = [body[i] for i in idx]
+    for i in reversed(idx):
+        del body[i]
+    body[dec[0]:dec[0]] = moved
+    return True
+
+
+def _buffer_as_chunk_list(root):
+    """the seeded C15-adv1 change: reassembly buffer becomes a list of chunks, the size check keeps len(buffer)"""
+    k = 0
+    for n in ast.walk(root):
+        if isinstance(n, ast.Call) and isinstance(n.func, ast.Attribute) and n.func.attr == "extend" and "_fragmented_message_buffer" in _src(n.func.value):
+            n.func.attr = "append"
+            k += 1
+    for n in ast.walk(root):
+        for fld in ("body", "orelse"):
+            body = getattr(n, fld, None)
+            if isinstance(body, list):
+                for i, st in enumerate(body):
+                    if isinstance(st, ast.Assign) and _src(st) == "data = bytes(self._fragmented_message_buffer)":
+                        body[i] = parse_stmt("data = b''.join(self._fragmented_message_buffer)")
+                        k += 1
+                    elif isinstance(st, ast.Assign) and _src(st) == "self._fragmented_message_buffer = bytearray(data)":
+                        body[i] = parse_stmt("self._fragmented_message_buffer = [data]")
+                        k += 1
+    return k == 3
+
+
 MUTANTS = [
-    ("undo the F12 repair: zlib.error handler removed", _in(P13 + "._handle_message", _drop_handler("zlib.error")), "C15.exc-abort"),
+    ("seeded C15-adv1: buffer becomes a list of chunks, limit still adds len(buffer) (fragments, not bytes)", _in(P13 + "._receive_frame", _buffer_as_chunk_list), "C15.size-limit"),
+    ("limit applied to the 7-bit length code (check moved before the extended length is decoded)", _in(P13 + "._receive_frame", _limit_before_decode), "C15.size-limit"),
+    ("size check adds the number of frames seen instead of the buffered bytes", _in(P13 + "._receive_frame", replace_expr(lambda n: q.is_call(n, "len") and "_fragmented_message_buffer" in _src(n), lambda n: parse_expr("len([self._fragmented_message_buffer])"))), "C15.size-limit"),
+    ("size check assigns instead of accumulating (new_len = len(buffer))", _in(P13 + "._receive_frame", replace_stmt(lambda st: isinstance(st, ast.AugAssign) and "new_len" in _src(st.target), lambda st: [ast.Assign(targets=[ast.Name(id="new_len", ctx=ast.Store())], value=st.value)])), "C15.size-limit"),
+    ("undo the G5-1/G5-2 repair: the broad handler of the receive loop removed", _in(P13 + "._receive_frame_loop", _drop_handler("Exception")), "C15.exc-abort"),
+    ("broad handler of the receive loop only logs (no abort)", _in(P13 + "._receive_frame_loop", lambda root: bool([h.body.pop() for n in ast.walk(root) if isinstance(n, ast.Try) for h in n.handlers if h.type is not None and _src(h.type) == "Exception" and _src(h.body[-1]) == "self._abort()"])), "C15.exc-abort"),
+    ("undo the F12 and loop repairs: neither zlib.error nor Exception handled", lambda repo: mutate(mutate(repo, W, P13 + "._handle_message", _drop_handler("zlib.error")), W, P13 + "._receive_frame_loop", _drop_handler("Exception")), "C15.exc-abort"),
     ("zlib.error handler only logs (no abort)", _in(P13 + "._handle_message", lambda root: bool([setattr(h, "body", [parse_stmt("return None")]) for n in ast.walk(root) if isinstance(n, ast.Try) for h in n.handlers if h.type is not None and "zlib.error" in _src(h.type)])), "C15.exc-abort"),
     ("undo the F11 repair: RSV1 on control frames accepted when deflate is negotiated", _in(P13 + "._receive_frame", replace_expr(lambda n: isinstance(n, ast.BoolOp) and "opcode != 0" in _src(n) and "_decompressor" in _src(n), lambda n: parse_expr("self._decompressor is not None and opcode != 0"))), "C15.abort-table"),
     ("reserved-bits abort removed", _in(P13 + "._receive_frame", _drop_abort_block(lambda t: t == "reserved_bits")), "C15.abort-table"),
